@@ -125,7 +125,9 @@ def main(tier):
         wd = chk.workdir = __import__("tempfile").mkdtemp(prefix="verif_C19b_")
         cfg = os.path.join(wd, "sw.cfg")
         tlc.write_cfg(cfg, spec="Spec", constants={"MaxSteps": 50, "Reduced": False}, view="View", invariants=["DisabledIsPlain"])
-        chk.add_tlc("JtSwitch", tlc.run("JtSwitch", cfg, wd, workers=4))
+        rs = tlc.run("JtSwitch", cfg, wd, workers=4, args=["-coverage", "1"])
+        chk.add_tlc("JtSwitch", rs)
+        chk.action_coverage("JtSwitch", rs, ["Update", "Decorate", "Call"])
         steps = 4
         cfg2 = os.path.join(wd, "swe.cfg")
         tlc.write_cfg(cfg2, spec="Spec", constants={"MaxSteps": steps, "Reduced": False}, constraints=["Emit"])
